@@ -40,10 +40,25 @@ def main():
             how = '%s (verdict shown is from its confirmation on the tree it was written for)' % m['recheck']
         rows.append('| %s/%s | %s | %s | %s |' % (m['property'], m['name'], summary, checks, how))
     table = ['| change | what it does (author\'s summary) | verdict of the check(s) on the changed tree | deciding part |', '|---|---|---|---|'] + rows
+    # behaviour-preserving refactorings (false-alarm test)
+    hrows = []
+    for f in sorted(glob.glob(os.path.join(HERE, 'seeded', '_harmless', '*', 'meta.json'))):
+        d = os.path.dirname(f)
+        m = json.load(open(f))
+        r = json.load(open(os.path.join(d, 'result.json'))) if os.path.exists(os.path.join(d, 'result.json')) else {}
+        v = r.get('verdicts', {})
+        summary = re.sub(r'\s+', ' ', m.get('summary', '')).replace('|', '/')
+        summary = summary[:200] + ('...' if len(summary) > 200 else '')
+        other = {c: rc for c, rc in v.items() if rc not in (0, 1, 2)}
+        hrows.append('| %s | %s | %s | %d HELD, %s VIOLATION, %s UNDECIDED%s |' % (os.path.basename(d), ', '.join(m.get('files', []))[:60], summary, sum(1 for rc in v.values() if rc == 0),
+                                                                               ', '.join(r.get('violations', [])) or 'no', ', '.join(r.get('undecided', [])) or 'no',
+                                                                               (', crashed: %s' % sorted(other)) if other else ''))
+    htable = ['### Behaviour-preserving refactorings (all 20 checks on each; a VIOLATION would be a false alarm)', '',
+              '| refactoring | files | what was refactored | verdicts of the 20 checks |', '|---|---|---|---|'] + hrows
     p = os.path.join(HERE, 'DESIGN.md')
     s = open(p).read()
     head = s.split(MARK)[0]
-    open(p, 'w').write(head + MARK + '\n\n' + '\n'.join(table) + '\n\n' + open(os.path.join(HERE, 'seeded', 'NOTES.md')).read())
+    open(p, 'w').write(head + MARK + '\n\n' + '\n'.join(table) + '\n\n' + open(os.path.join(HERE, 'seeded', 'NOTES.md')).read() + '\n' + '\n'.join(htable) + '\n')
     print('%d seeded changes' % len(rows))
 
 
